@@ -278,6 +278,9 @@ def _data_of(node: Node, allow_minus: bool):
         s = decode_string_node(node)
         if s is None:
             raise NotData("string with interpolation")
+        if any(ch.type == "string_fragment" and b"\r" in ch.text for ch in node.children):
+            # Nix (unescapeStr) normalises a raw CR / CRLF inside a string literal to LF
+            raise NotData("raw carriage return in a string literal (Nix reads it as a line feed)")
         return s
     if t == "variable_expression":
         name = node.text.decode()
